@@ -45,7 +45,10 @@ def scenario(rng, sid, tier):
     big = [1, 100, mtu, mtu + 1, 5000, 20000, 60000, 200000] if tier == "quick" else [1, 100, mtu, 5000, 60000, 300000, 2000000]
     total = rng.choice(big)
     chunk = rng.choice([1, 100, 1000, mtu, 7000, 65536, 1000000])
-    if total / max(1, chunk) > 3000: chunk = total // 1000 + 1
+    # keep the number of segments (and events) of one scenario bounded
+    maxseg = 400 if tier == "quick" else 2500
+    if total / max(1, min(chunk, mtu)) > maxseg: chunk = max(chunk, total // maxseg + 1)
+    if total / max(1, min(chunk, mtu)) > maxseg: total = maxseg * min(chunk, mtu)
     cap_r = rng.choice([1, 100, 1475, 4096, 65536])
     if total / cap_r > 4000: cap_r = 4096
     P = []
